@@ -252,6 +252,16 @@ def _driver(mode):
 
         spec = Spec(sq["tree"])
         rows = []; oracle = None; nact_bad = None; pyidx = []; extra = None
+        cbev = []; cbcur = []; cbstate = {"on": True}
+        if mode == "c":
+            CB = ctypes.CFUNCTYPE(None, ctypes.POINTER(Particle))
+
+            def _cb(pp, cbcur=cbcur, cbstate=cbstate):
+                if cbstate["on"]:
+                    q = pp.contents
+                    cbcur.append([int(q.m) if q.m == int(q.m) else -1, bool(q.y != q.y)])
+            sim._c14_cb = CB(_cb)
+            sim._free_particle_ap = sim._c14_cb
         for k, op in enumerate(sq["ops"]):
             code, idx = 9, 0
             t = op[0]
@@ -323,6 +333,17 @@ def _driver(mode):
                 extra = extra or "op %d %s raised %s: %s" % (k, op, type(e).__name__, e)
             ob = observe()
             rows.append([code, idx, ob[0], ob[1], ob[2]])
+            cbev.append(list(cbcur)); del cbcur[:]
+            if oracle is None and mode == "c":
+                # free_particle_ap: exactly once per successful removal, and on the particle that is being removed
+                ev = cbev[-1]
+                if t in ("rmi", "rmh") and code == 1:
+                    cand = ([spec.ps[op[1]][1]] if t == "rmi" and 0 <= op[1] < len(spec.ps)
+                            else [q[1] for q in spec.ps if q[0] == hval(op[1])] if t == "rmh" else [])
+                    if len(ev) != 1 or ev[0][0] not in cand:
+                        oracle = {"op": k, "msg": "callback: free_particle_ap events %s, expected exactly one for particle id in %s" % (ev, cand), "opv": op}
+                elif ev:
+                    oracle = {"op": k, "msg": "callback: free_particle_ap called %d times by an operation that removed nothing" % len(ev), "opv": op}
             if oracle is None:
                 msg = spec.step(op, code, idx, ob)
                 if msg:
@@ -357,7 +378,8 @@ def _driver(mode):
                     oracle = {"op": k, "msg": "container: " + c, "opv": op}
         final = observe()[3]
         sim.N_var = 0
-        out.append({"rows": rows, "final": final, "oracle": oracle, "nact_bad": nact_bad, "pyidx": pyidx, "extra": extra})
+        cbstate["on"] = False          # reb_simulation_free_pointers calls the callback for the remaining particles
+        out.append({"rows": rows, "final": final, "oracle": oracle, "nact_bad": nact_bad, "pyidx": pyidx, "extra": extra, "cb": cbev})
     json.dump(out, sys.stdout)
 
 
@@ -707,6 +729,37 @@ def hybrid_check(ctx, libdir):
         ctx.obligation("correspondence:C14 hybrid bookkeeping", False, "driver exit %d: %s" % (r.returncode, r.stderr[-1500:]))
         return
     res = json.loads(r.stdout)
+    if ctx.thorough:
+        # the same cases on the ASan+UBSan build: the library reallocs / shifts the malloc'ed dcrit, encounter_map,
+        # particles_backup*, current_Ks blocks; any access outside them is reported, and the rows must be identical
+        try:
+            adir = ctx.lib("default", cc="clang", extra_flags=["-fsanitize=address,undefined", "-fno-omit-frame-pointer",
+                                                               "-fno-sanitize-recover=undefined", "-fno-sanitize=nonnull-attribute"], tag="asan")
+            rt = subprocess.run(["clang", "-print-file-name=libclang_rt.asan-x86_64.so"], capture_output=True, text=True).stdout.strip()
+            aenv = vlib.pyenv(adir); aenv.update({"C14_LIBDIR": adir, "ASAN_OPTIONS": "detect_leaks=0:symbolize=0", "LD_PRELOAD": rt})
+            ra = subprocess.run([vlib.PY, os.path.abspath(__file__), "--drive-hybrid"], env=aenv, input=json.dumps(cases),
+                                capture_output=True, text=True, timeout=1800)
+            same = ra.returncode == 0 and json.loads(ra.stdout) == res
+            ctx.obligation("searcher:C14 hybrid cases on the ASan+UBSan build: no report, same rows (%d cases)" % len(cases), same,
+                           " ".join(l for l in (ra.stderr or "").splitlines() if "Sanitizer" in l or "runtime error" in l)[:600] or
+                           ("exit %d" % ra.returncode))
+            if not same and not ctx.violations:
+                ctx.violation("hybrid-asan", {"stderr": (ra.stderr or "")[-1500:], "exit": ra.returncode}, False,
+                              "the MERCURIUS/TRACE bookkeeping cases behave differently or report an error on the sanitizer build")
+        except Exception as ex:
+            ctx.obligation("searcher:C14 hybrid cases on the ASan+UBSan build", False, repr(ex)[-400:])
+    # library-only oracle for the encounter map: removing a mapped particle drops its entry and renumbers the later ones
+    for c, x in zip(cases, res):
+        act = (c["kind"] == "merc" and c["mode"] == 1) or (c["kind"] == "trace" and c["mode"] in (1, 3))
+        if act and c["ops"] and c["ops"][0][0] == "rmi" and x["rows"][0][0] == 1:
+            live = c["emap"][:c["eN"]]; i0 = c["ops"][0][1]
+            if i0 in live:
+                exp = [v for v in live if v < i0] + [v - 1 for v in live if v > i0]
+                if x["rows"][0][4] != exp or x["rows"][0][5] != len(exp):
+                    ctx.violation("encounter_map_renumbering", {"state": {k: c[k] for k in ("kind", "mode", "n0", "emap", "eN", "eNact")}, "op": c["ops"][0],
+                                  "encounter_map_after": x["rows"][0][4], "encounter_N_after": x["rows"][0][5], "expected": exp}, True,
+                                  "after removing a particle of the encounter list, encounter_map is not the renumbered list without it")
+                    break
     # library-only oracle for TRACE current_Ks: after a successful removal in mode 1/3 the live matrix must be the old
     # matrix with row and column [index] deleted
     for c, x in zip(cases, res):
@@ -719,6 +772,20 @@ def hybrid_check(ctx, libdir):
                               {"state": {k: c[k] for k in ("mode", "n0", "emap", "eN", "eNact", "ks")}, "op": c["ops"][0],
                                "current_Ks_after": x["rows"][0][7], "expected": exp}, True,
                               "TRACE current_Ks is not the matrix with row/column %d removed after reb_simulation_remove_particle" % i0)
+                break
+    # library-only oracle for TRACE current_Ks after reb_simulation_add in mode 1/3: the column of the new particle must hold
+    # 1 for the particles of the encounter list (star excluded) and 0 otherwise -- not whatever the block contained
+    # (the cases prefill the block with sentinels >= 1000)
+    for c, x in zip(cases, res):
+        if c["kind"] == "trace" and c["mode"] in (1, 3) and c["ops"] and c["ops"][0][0] == "add" and x["rows"][0][7]:
+            n = c["n0"] + 1; kk = x["rows"][0][7]
+            col = [kk[a * n + (n - 1)] for a in range(n - 1)]
+            if any(v not in (0, 1) for v in col):
+                ctx.violation("trace_add_Ks_new_column_uninitialised",
+                              {"state": {k: c[k] for k in ("mode", "n0", "cap", "emap", "eN", "eNact", "ks")}, "op": c["ops"][0],
+                               "new_column_after_add": col}, True,
+                              "reb_simulation_add (TRACE) never writes the current_Ks entries of the new particle for particles outside the "
+                              "encounter list: they keep stale / uninitialised memory")
                 break
     texts = [coq_hcase(c, x) for c, x in zip(cases, res)]
     ctx.evaluations += sum(len(x["rows"]) for x in res)
@@ -895,12 +962,13 @@ def truncate_at(sq, k):
 def run(ctx):
     libdir = build_default(ctx)
     REBUILD[libdir] = lambda: build_default(ctx)
-    proved = ctx.prove("C14", extra_targets=["C14/Run.vo", "C14/PyLayer.vo", "C14/Hybrid.vo", "C14/HybridProofs.vo", "C14/StepGuard.vo"])
+    proved = ctx.prove("C14", extra_targets=["C14/Run.vo", "C14/PyLayer.vo", "C14/Hybrid.vo", "C14/HybridProofs.vo", "C14/StepGuard.vo", "C14/Callback.vo"])
     rng = ctx.rng
     stable = qsort_is_stable()
     ctx.assumptions.append("platform qsort keeps equal hashes in index order (probed: %s); with an unstable qsort the exact "
                            "index returned among duplicate hashes is not compared (sequences then avoid duplicate non-zero hashes)" % stable)
 
+    ctx.log("phase done: prove")
     # ---------------- sequences
     nseq = ctx.scale(160, 800)
     seqs = []
@@ -935,6 +1003,7 @@ def run(ctx):
         ctx.violation("crash:" + mode, {"mode": mode, "sequence": small, "diagnostic": d[-1500:]}, True,
                       "the library crashed while executing an add/remove/hash sequence (%s API)" % mode)
 
+    ctx.log("phase done: drivers")
     # ---------------- searcher verdicts (library vs independent list specification)
     n_or = 0
     first_fail = None
@@ -967,6 +1036,7 @@ def run(ctx):
         ctx.violation("nactive_exceeds_N", {"mode": mode, "sequence": small, "state": rs[0]["nact_bad"] if rs else r["nact_bad"]}, True,
                       "N_active is left outside 0..N by an operation other than a direct write of N_active")
 
+    ctx.log("phase done: searcher")
     # ---------------- correspondence: model (vm_compute) vs library, both APIs
     cases = []
     for mode in ("c", "py"):
@@ -1007,6 +1077,39 @@ def run(ctx):
                       "the library's behaviour on this sequence differs from the verified model of particle.c, so the theorems "
                       "no longer describe the code (the list specification itself was not violated on the sequences explored)")
 
+    ctx.log("phase done: corr-main")
+    # ---------------- free_particle_ap callback events (C API): model Callback.v + library-only oracle
+    cbtexts = []; cb_bad = None
+    for k, (sq, r) in enumerate(zip(seqs, results["c"])):
+        if r is None or "cb" not in r:
+            continue
+        ops2 = [(["nact", row[3]] if o[0] == "nact" else o) for o, row in zip(sq["ops"], r["rows"])]
+        cbtexts.append("(%s, [%s], [%s])" % ("true" if sq["tree"] else "false", "; ".join(coq_op(o) for o in ops2),
+                       "; ".join("[%s]" % "; ".join("(%d, %s)" % (max(e[0], 0), "true" if e[1] else "false") for e in ev) for ev in r["cb"])))
+        for o, row, ev in zip(sq["ops"], r["rows"], r["cb"]):
+            want = 1 if (o[0] in ("rmi", "rmh") and row[0] == 1) else 0
+            if len(ev) != want and cb_bad is None:
+                cb_bad = {"sequence": sq, "op": o, "callback_events": ev, "expected_calls": want}
+    if cb_bad:
+        ctx.violation("callback-count", cb_bad, True, "free_particle_ap was not called exactly once for a removed particle (or was called for a failed request)")
+    if cbtexts:
+        hdrc = ("From Coq Require Import List ZArith NArith Bool.\nFrom RV Require Import C14.Murmur C14.Model C14.Callback.\n"
+                "Import ListNotations.\nOpen Scope N_scope.\n")
+        jobsc = []
+        for c0 in range(0, len(cbtexts), 8):
+            jobsc.append(("c14_cb%d" % (c0 // 8), hdrc + "Definition cases : list cbcase := [\n" + ";\n".join(cbtexts[c0:c0 + 8]) +
+                          "].\nEval vm_compute in (bad_cb 0 cases).\n"))
+        badc = []; okc = True; detc = ""
+        for (name, ok, out), c0 in zip(vlib.coq_eval_many(jobsc), range(0, len(cbtexts), 8)):
+            b = vlib.parse_coq_list_nat(out) if ok else None
+            if b is None:
+                okc = False; detc = out[-800:]
+            else:
+                badc += [c0 + x for x in b]
+        ctx.obligation("correspondence:C14 free_particle_ap events (which particle, in which state, per operation) == Callback.v on %d runs" % len(cbtexts),
+                       okc and not badc, detc or "mismatching runs %s" % badc[:5])
+
+    ctx.log("phase done: callback")
     # ---------------- Murmur model vs reb_hash
     clib = vlib.load_clib(build_default(ctx))
     clib.reb_hash.restype = ctypes.c_uint32
@@ -1044,6 +1147,7 @@ def run(ctx):
         ctx.violation("reb_hash", {"bytes_hex": bs.hex(), "library": clib.reb_hash(ctypes.c_char_p(bs)), "murmur3_x86_32_seed1983": py_murmur(bs)},
                       True, "reb_hash differs from MurmurHash3_x86_32(seed 1983)")
 
+    ctx.log("phase done: murmur")
     # ---------------- Python container index normalisation vs py_index
     pyi = [t for r in results["py"] if r for t in r["pyidx"]][:2000]
     if pyi:
@@ -1054,18 +1158,31 @@ def run(ctx):
         ctx.obligation("correspondence:C14 py_index == Particles.__getitem__(int) on %d keys" % len(pyi), b == [],
                        out[-800:] if b is None else "mismatch: %s" % [pyi[i] for i in (b or [])[:5]])
 
+    ctx.log("phase done: pyidx")
     # ---------------- Python container layer
     pylayer_check(ctx, build_default(ctx))
 
+    ctx.log("phase done: pylayer")
     # ---------------- MERCURIUS / TRACE bookkeeping vs Hybrid.v
     hybrid_check(ctx, build_default(ctx))
 
+    ctx.log("phase done: hybrid")
     # ---------------- MERCURIUS bookkeeping scenarios (library only)
     mercurius_scenarios(ctx, build_default(ctx))
 
+    ctx.log("phase done: merc-scen")
+    # ---------------- remove-all under a tree
+    remove_all_tree_probe(ctx, build_default(ctx))
+
+    ctx.log("phase done: rmall-tree")
+    # ---------------- unsigned TRACE bookkeeping through the public API
+    trace_full_mode_probe(ctx, build_default(ctx))
+
+    ctx.log("phase done: trace-full")
     # ---------------- failed part1 / changed N: integrator arrays of an earlier N must not be touched
     failed_step_probe(ctx, build_default(ctx))
 
+    ctx.log("phase done: failed-step")
     # ---------------- real variational particles: removal refused, simulation unchanged
     vres, vd = drive_variation(libdir)
     ctx.obligation("searcher:C14 removal with real variational particles (add_variation) is refused and changes nothing",
@@ -1279,6 +1396,97 @@ def failed_step_probe(ctx, libdir):
                               True, what)
     ctx.obligation("searcher:C14 failed-step probe ran (%d scenarios x %d builds, %d completed steps)" % (len(FAILED_STEP_SCENARIOS), len(builds), nrun),
                    nrun >= len(FAILED_STEP_SCENARIOS) // 2, "")
+
+
+TRACE_FULL_SCRIPT = r"""
+import rebound, warnings, sys, json
+warnings.simplefilter("ignore")
+s = rebound.Simulation()
+s.integrator = "trace"; s.ri_trace.peri_mode = sys.argv[1]; s.ri_trace.peri_crit_eta = 1e-6
+s.collision = "direct"; s.dt = 0.01
+log = []
+def resolve(sp, c):
+    sim = sp.contents
+    log.append([sim.ri_trace._mode, sim.ri_trace._encounter_N, sim.N])
+    print(json.dumps({"partial": log}), flush=True)
+    return 2
+s.collision_resolve = resolve
+s.add(m=1., r=1e-3)
+for k in range(int(sys.argv[2])):
+    a = 1.0 + 0.7*k
+    s.add(m=1e-5, a=a, r=5e-3, f=0.3*k); s.add(m=1e-5, a=a*(1+1e-4), r=5e-3, f=0.3*k)
+s.steps(1)
+print(json.dumps({"done": log, "N": s.N, "eN": s.ri_trace._encounter_N}))
+"""
+
+
+def trace_full_mode_probe(ctx, libdir):
+    """Unsigned bookkeeping of TRACE reached through the public API: collision removals during a pericentre (FULL) step."""
+    d = os.path.join(vlib.BUILD, "cases"); os.makedirs(d, exist_ok=True)
+    f = os.path.join(d, "c14_trace_full.py"); open(f, "w").write(TRACE_FULL_SCRIPT)
+    n = 0
+    for pm in ("FULL_BS", "FULL_IAS15", "PARTIAL_BS"):
+        for pairs in (1, 2, 3, 4):
+            try:
+                r = vlib.run_py(libdir, f, [pm, pairs], timeout=120)
+            except subprocess.TimeoutExpired:
+                ctx.obligation("searcher:C14 TRACE full-mode probe completes", False, "timeout %s %d" % (pm, pairs)); return
+            n += 1; ctx.evaluations += 1
+            last = None
+            for line in (r.stdout or "").splitlines():
+                if line.startswith("{"):
+                    try: last = json.loads(line)
+                    except ValueError: pass
+            seq = (last or {}).get("done") or (last or {}).get("partial") or []
+            wrapped = [e for e in seq if e[1] >= (1 << 31)]
+            if r.returncode < 0 or wrapped or (r.returncode != 0 and "Error" not in (r.stderr or "")):
+                ctx.violation("trace_full_mode_removal_wraps_encounter_N",
+                              {"peri_mode": pm, "overlapping_pairs": pairs, "exit": r.returncode, "mode_encounterN_N_at_each_collision": seq,
+                               "repro": "build/cases/c14_trace_full.py %s %d" % (pm, pairs)}, True,
+                              "collision removals during a TRACE pericentre step wrap the unsigned encounter_N" +
+                              (" and crash the process (signal %d)" % -r.returncode if r.returncode < 0 else ""))
+                ctx.obligation("searcher:C14 TRACE full-mode probe ran (%d scenarios)" % n, True, "")
+                return
+    ctx.obligation("searcher:C14 TRACE full-mode probe ran (%d scenarios)" % n, True, "")
+
+
+REMOVE_ALL_TREE_SCRIPT = r"""# reb_simulation_remove_all_particles does not reset the tree: its leaves keep the particle indices of the removed
+# particles. After the next add the tree update / gravity walk dereferences particles[pt] for indices >= N and, when more
+# than 128 particles had been present, beyond the freshly allocated array (N_allocated = 128).
+import rebound, warnings, sys, ctypes
+warnings.simplefilter("ignore")
+n0 = int(sys.argv[1]) if len(sys.argv) > 1 else 300
+s = rebound.Simulation()
+s.configure_box(100.); s.gravity = "tree"; s.integrator = "leapfrog"; s.dt = 1e-3
+for k in range(n0):
+    s.add(m=1e-3, x=-40. + 80.*k/n0, y=0.3*(k % 7), z=0.1*(k % 3))
+s.step()
+del s.particles                       # N = 0, particles freed, tree untouched
+s.add(m=1., x=1.)
+print("N", s.N, "N_allocated", s._N_allocated if hasattr(s, "_N_allocated") else "?")
+s.step()
+print("after step: N", s.N, "x", s.particles[0].x, "ax", s.particles[0].ax)
+"""
+
+
+def remove_all_tree_probe(ctx, libdir):
+    """remove-all while a tree exists, then add and step: the tree must not dereference indices of removed particles."""
+    d = os.path.join(vlib.BUILD, "cases"); os.makedirs(d, exist_ok=True)
+    f = os.path.join(d, "c14_remove_all_tree.py"); open(f, "w").write(REMOVE_ALL_TREE_SCRIPT)
+    n = 0
+    for n0 in (3, 100, 129, 300):
+        try:
+            r = vlib.run_py(libdir, f, [n0], timeout=120)
+        except subprocess.TimeoutExpired:
+            ctx.obligation("searcher:C14 remove-all under a tree probe completes", False, "timeout"); return
+        n += 1; ctx.evaluations += 1
+        if r.returncode != 0:
+            ctx.violation("remove_all_tree_and_callback", {"particles_before_remove_all": n0, "exit": r.returncode, "stderr": (r.stderr or "")[-600:],
+                                                           "repro": "build/cases/c14_remove_all_tree.py %d" % n0}, True,
+                          "after reb_simulation_remove_all_particles with a tree present, the next add/step dereferences tree leaves of removed particles"
+                          + (" (signal %d)" % -r.returncode if r.returncode < 0 else ""))
+            break
+    ctx.obligation("searcher:C14 remove-all under a tree probe ran (%d sizes)" % n, True, "")
 
 def drive_variation(libdir):
     script = r'''
